@@ -180,7 +180,7 @@ def _stat(ctx, R, roles, T):
     exp = fold_cmd_list(T, f, n, b.get("expected_ids"))
     R.check(exp == (b"STAT",), "STAT", q + "|ids", "expects a STAT record", "stat expects %s" % (exp,), f.loc(n.ast))
     _info_format(ctx, R, roles, T, f, n, c, fr, "FILESYNC_STAT_FORMAT", "STAT")
-    R.check(rq is not None and g.dominates([rq], n) and not n.loops, "STAT", q + "|request-first", "STAT is requested, then one record is read", None, f.loc())
+    R.check(rq is not None and g.dominates([rq], n) and not g.in_cycle(n), "STAT", q + "|request-first", "STAT is requested, then one record is read", None, f.loc())
     rt = T.term(f, n, c)
     hdr = ("proj", rt, 1)
     cl = callee_nodes(ctx, f, clse)
